@@ -293,7 +293,159 @@ let run_hs_dial kvs ikvs =
   let host = match get_or kvs "hostopt" "-" with "-" -> hex "dial.example" | h -> h in
   Printf.sprintf "ok=%s subproto=%s co=%s keyok=1 method=GET host=%s req=%s" ok sub co host req
 
+(* ---- suite sched: judge on the wire + replay of the observed schedule in the interleaving model ---- *)
+let sched_payload (w : int) (seq : int) (n : int) : string =
+  let tag = Printf.sprintf "w%02d:%03d;" w seq in
+  let p = Bytes.of_string (gen_bytes "text" n (w * 1000 + seq + 1)) in
+  Bytes.blit_string tag 0 p 0 (min (String.length tag) n); Bytes.to_string p
+
+type tev = { th : int; evk : int; mu : int; a : int; b : int }
+
+let run_sched kvs ikvs =
+  let role = role_of (get kvs "role") in
+  let co = co_of (get kvs "co") in
+  let plans = List.map (fun pl -> String.split_on_char ',' pl) (String.split_on_char '/' (get kvs "plan")) in
+  let nw = List.length plans in
+  let res = Array.of_list (String.split_on_char '/' (get_or ikvs "res" "")) in
+  let wire = bytes_of_string (unhex (get_or ikvs "wire" "-")) in
+  (* ---------- the judge (C05 / C16): reference decoder on the recorded bytes ---------- *)
+  let (fs, pend) = parse wire in
+  let takeover = (match co with Some c -> writer_takeover role c | None -> false) in
+  let verdict =
+    if pend = PNeg then "violation:unparsable"
+    else if not (wf_stream role co fs) then "violation:not-conformant(frames-interleaved-or-malformed)"
+    else begin
+      (* nothing after close *)
+      let rec ac seen = function
+        | [] -> true
+        | f :: r -> let o = int_of_n f.pf_hdr.h_opc in
+          if seen then (o = 9 || o = 10) && ac true r else ac (o = 8) r in
+      if not (ac false fs) then "violation:frame-after-close" else
+      let msgs = ref_messages inflate_oracle takeover [] (ref_events fs) in
+      let last_seq = Hashtbl.create 8 in
+      let seen = Hashtbl.create 64 in
+      let bad = ref "" in
+      List.iter (fun m -> match m with
+        | None -> if !bad = "" then bad := "violation:undecodable-message"
+        | Some (_, p) ->
+          let b = string_of_bytes p in
+          (try
+            let w = int_of_string (String.sub b 1 2) and sq = int_of_string (String.sub b 4 3) in
+            let op = List.nth (List.nth plans w) sq in
+            let n = int_of_string (List.hd (String.split_on_char 'x' (String.sub op 1 (String.length op - 1)))) in
+            if b <> sched_payload w sq n then (if !bad = "" then bad := Printf.sprintf "violation:message-not-one-that-was-written(w%d:%d)" w sq)
+            else if Hashtbl.mem seen (w, sq) then (if !bad = "" then bad := "violation:message-duplicated")
+            else begin
+              Hashtbl.replace seen (w, sq) true;
+              let l = try Hashtbl.find last_seq w with Not_found -> -1 in
+              if sq <= l then (if !bad = "" then bad := Printf.sprintf "violation:writer-order(w%d)" w);
+              Hashtbl.replace last_seq w sq
+            end
+          with _ -> if !bad = "" then bad := "violation:message-not-one-that-was-written")) msgs;
+      (* the last message may be cut off by the close: only complete messages are decoded. A Write that returned nil must be on the wire *)
+      if !bad = "" then
+        List.iteri (fun w plan -> List.iteri (fun sq _ ->
+          if w < Array.length res && sq < String.length res.(w) && res.(w).[sq] = '1' && not (Hashtbl.mem seen (w, sq)) && pend = PClean then
+            (if !bad = "" then bad := Printf.sprintf "violation:acknowledged-message-missing(w%d:%d)" w sq)) plan) plans;
+      if !bad = "" then "ok" else !bad
+    end in
+  (* ---------- replay of the observed schedule in Model/Sched.v ---------- *)
+  let trace = List.filter_map (fun x -> match String.split_on_char ':' x with
+      | [t; e; m; a; b] -> Some { th = int_of_string t; evk = int_of_string e; mu = int_of_string m; a = int_of_string a; b = int_of_string b }
+      | _ -> None) (String.split_on_char ',' (get_or ikvs "trace" "")) in
+  let nthreads = List.fold_left (fun m e -> max m (e.th + 1)) (nw + 2) trace in
+  (* programs reconstructed from the case (call structure of the writers) and the trace (frames per message; for the
+     pinger, the closer and the library's own goroutines: one call per acquisition of writeFrameMu) *)
+  let progs = Array.make nthreads [] in
+  for t = 0 to nthreads - 1 do
+    if t < nw then begin
+      let fr = List.filter_map (fun e -> if e.th = t && e.evk = 5 then Some (e.a, e.b) else None) trace in
+      let calls = ref [] and cur = ref 0 in
+      List.iter (fun (opc, fin) -> if opc <= 2 then (if fin = 1 then (calls := CMsg (nat_of_int !cur, O) :: !calls; cur := 0) else incr cur)) fr;
+      if !cur > 0 then calls := CMsg (nat_of_int (!cur + 1), O) :: !calls;   (* a message cut off before its final frame *)
+      let l = List.rev !calls in
+      let extra = max 0 (List.length (List.nth plans t) - List.length l) in
+      progs.(t) <- l @ List.init extra (fun _ -> CMsg (O, O))
+    end else begin
+      let calls = ref [] and pending = ref false and kind = ref (-1) in
+      (* a Close frame (or a refused, unidentified frame) by the user's closer is Close; by a goroutine of the library it is the echo of the peer's Close *)
+      let flush () = if !pending then (calls := (if !kind = 9 || !kind = 10 then CPing O else if t = nw + 1 then CClose O else CEcho O) :: !calls; pending := false; kind := -1) in
+      List.iter (fun e -> if e.th = t then begin
+        if e.evk = 1 && e.mu = 3 then (flush (); pending := true)
+        else if e.evk = 5 then kind := e.a
+        else if e.evk = 2 && e.mu = 3 then flush ()
+      end) trace;
+      flush ();
+      progs.(t) <- List.rev !calls
+    end
+  done;
+  (* a goroutine that closed the connection without writing a Close frame first performs CCloseNow (user CloseNow / Close whose frame was refused) *)
+  let st = ref (init (role = Client) (fun t -> let t = int_of_nat t in if t < nthreads then progs.(t) else [])) in
+  let err = ref "" in
+  let fail m = if !err = "" then err := m in
+  let phase_of t = (!st.thrs (nat_of_int t)).ph in
+  let stepn t alt = match step !st (EStep (nat_of_int t, alt)) with Some s -> st := s; true | None -> false in
+  (* advance thread t through its internal steps until pred holds; gives up after a bound *)
+  let advance t pred what =
+    let n = ref 0 in
+    while not (pred (phase_of t)) && !n < 64 && !err = "" do
+      if not (stepn t false) then (if not (stepn t true) then fail (Printf.sprintf "blocked:t%d:%s" t what));
+      incr n
+    done;
+    if not (pred (phase_of t)) then fail (Printf.sprintf "cannot-reach:t%d:%s" t what) in
+  List.iter (fun e ->
+    if !err = "" then begin
+      let t = e.th in
+      match e.evk, e.mu with
+      | 1, 1 -> (* msgWriter.mu acquired *)
+        advance t (function WantMsg _ -> true | _ -> false) "lock-msg";
+        if !err = "" && not (stepn t false) then fail (Printf.sprintf "model-blocks:t%d:lock-msg" t)
+      | 1, 3 -> (* writeFrameMu acquired *)
+        advance t (function WantFrame _ -> true | _ -> false) "lock-frame";
+        if !err = "" && not (stepn t false) then fail (Printf.sprintf "model-blocks:t%d:lock-frame" t);
+        (match phase_of t with Check _ -> () | _ -> fail (Printf.sprintf "lock-frame-not-acquired:t%d" t))
+      | 5, _ -> (* writeFrame passed its checks *)
+        (match phase_of t with Check _ -> if not (stepn t false) then fail "check-step" | _ -> fail (Printf.sprintf "frame-without-lock:t%d" t));
+        (match phase_of t with Emit _ -> () | _ -> fail (Printf.sprintf "model-refuses-frame:t%d:opc%d" t e.a))
+      | 2, 3 -> (* writeFrameMu released *)
+        (match phase_of t with
+         | Emit _ -> ignore (stepn t false); (match phase_of t with Unlock _ | FailFrame _ -> ignore (stepn t false) | _ -> fail "unlock-frame-emit")
+         | Check _ -> ignore (stepn t false); (match phase_of t with FailFrame _ -> ignore (stepn t false) | _ -> fail (Printf.sprintf "model-accepts-frame-the-library-refused:t%d" t))
+         | Unlock _ | FailFrame _ -> ignore (stepn t false)
+         | _ -> ())  (* unlock of a lock not held (deferred unlock after a failed lock): no effect *)
+      | 2, 1 -> (match phase_of t with
+                 | EndMsg -> ignore (stepn t false)
+                 | WantFrame (FData, _, _, _) when !st.close_sent && !st.msg_mu = Some (nat_of_int t) -> ignore (stepn t true)   (* refused through the compressor's sticky error *)
+                 | _ -> ())
+      | 4, _ -> (* the connection was marked closed by this goroutine *)
+        (match phase_of t with
+         | DoClose -> ignore (stepn t false)
+         | _ -> (* try to get there (a Close whose frame is done / refused, a CloseNow); otherwise it is an outside close *)
+           let saved = !st in
+           let ok = ref false in
+           let n = ref 0 in
+           while not !ok && !n < 8 do
+             (match phase_of t with DoClose -> ok := true | Idle | Unlock _ | FailFrame _ -> if not (stepn t false) then n := 8 | _ -> n := 8);
+             incr n
+           done;
+           if !ok then ignore (stepn t false)
+           else begin st := saved; (match step !st EClose with Some s -> st := s | None -> ()) end)
+      | 3, 3 -> (match phase_of t with ForceFrame -> if not (stepn t false) then fail (Printf.sprintf "model-blocks:t%d:forcelock-frame" t) | _ -> ())
+      | _ -> ()
+    end) trace;
+  (* the frames the model put on the wire, in order, against the frames the library started, in order *)
+  let mframes = List.filter_map (fun (e : wev) -> if int_of_nat e.e_part = 0 then Some (int_of_nat e.e_tid, (match e.e_kind with FData -> 0 | FPing -> 9 | FClose -> 8), if e.e_fin then 1 else 0) else None) !st.wire in
+  let iframes = List.filter_map (fun e -> if e.evk = 5 then Some (e.th, (if e.a = 8 then 8 else if e.a >= 9 then 9 else 0), (if e.a >= 8 then 1 else e.b)) else None) trace in
+  if !err = "" && mframes <> iframes then fail (Printf.sprintf "frame-order-differs:model=%d:impl=%d" (List.length mframes) (List.length iframes));
+  let props = Printf.sprintf "%b,%b,%b" (frames_atomic None !st.wire) (msgs_unmixed None !st.wire) (after_close None !st.wire) in
+  (* goroutines (C20): the timeout goroutine (started in newConn, before tracing) and every CloseRead goroutine must have exited *)
+  let crstarts = List.length (List.filter (fun e -> e.evk = 7 && e.a = 1) trace) and crexits = List.length (List.filter (fun e -> e.evk = 8 && e.a = 1) trace)
+  and tlexits = List.length (List.filter (fun e -> e.evk = 8 && e.a = 0) trace) in
+  let gor = if tlexits = 1 && crstarts = crexits then "ok" else Printf.sprintf "leak:timeoutLoop-exits=%d:closeRead=%d/%d" tlexits crexits crstarts in
+  Printf.sprintf "judge=%s replay=%s modelprops=%s frames=%d goroutines=%s" verdict (if !err = "" then "ok" else !err) props (List.length iframes) gor
+
 let suites : (string * ((string * string) list -> (string * string) list -> string)) list = [
+  "sched", run_sched;
   "hs-accept", run_hs_accept;
   "hs-dial", run_hs_dial;
   "pair", run_pair;
